@@ -46,7 +46,9 @@ CODE_TEXT = {
 }
 ALPHA_TEXT = {0: "not-applicable", 1: "in-domain-conclusion-holds", 2: "in-domain-conclusion-FAILS",
               3: "outside-fragment-conclusion-holds", 4: "outside-fragment-conclusion-fails",
-              5: "in-fragment-but-structural-hypothesis-fails"}
+              5: "in-fragment-but-ids-not-unique-or-name-not-fresh",
+              6: "several-modules:hypotheses-and-conclusion-hold", 7: "several-modules:outside-domain-conclusion-holds",
+              8: "several-modules:hypotheses-hold-conclusion-FAILS", 9: "several-modules:outside-domain-conclusion-fails"}
 CLASS_TEXT = {0: "not-modelled", 1: "refused", 2: "raised", 3: "local", 4: "cross-module", 5: "module-wide", 6: "module-rename"}
 
 FIXED = [
@@ -338,6 +340,7 @@ def case_file(ans):
     return (L.HEADER + "Definition cases : list case := [\n%s\n].\n"
             "Eval vm_compute in (mismatches cases).\nEval vm_compute in (all_classes cases).\n"
             "Eval vm_compute in (all_alpha cases).\nEval vm_compute in (all_regressed cases).\n"
+            "Eval vm_compute in (all_alpha_multi cases).\n"
             % ";\n".join(L.g_case(an.p, coq_queries(an), an.new_name) for an in ans))
 
 
@@ -349,10 +352,10 @@ def coq_results(ctx, ans, chunk=6):
     for k, out in enumerate(outs):
         n = len(ans[k * chunk:(k + 1) * chunk])
         ev = parse_evals(out)
-        if len(ev) != 4 or len(ev[0]) != n or len(ev[1]) != n or len(ev[2]) != n or len(ev[3]) != n:
+        if len(ev) != 5 or any(len(x) != n for x in ev):
             raise RuntimeError("unexpected coqc output:\n" + out[-2000:])
         for i in range(n):
-            res.append((list(ev[0][i]), ev[1][i], ev[2][i], ev[3][i]))
+            res.append((list(ev[0][i]), ev[1][i], [a if a else b for a, b in zip(ev[2][i], ev[4][i])], ev[3][i]))
     return res
 
 
@@ -363,21 +366,22 @@ def signature(obj):
     return obj.get("focus") or None
 
 
-def focus_of(an, m, t, o, probs, model=False):
-    """structural explanation of a failing rename from the sources alone (no rope, no model); None = unexplained"""
+def candidates_of(an, m, t, o, probs, model=False):
+    """the recorded shapes the project contains for the renamed name, in a fixed order (structural facts of the sources
+    alone: no rope, no model)"""
     target = o.get("target")
     if isinstance(target, tuple) and target[0] == "builtin":
-        return "builtin-renamed"
+        yield "builtin-renamed"
     if t is not None and re.fullmatch(r"__\w+__", t.name):
-        return "special-name-renamed"
+        yield "special-name-renamed"
     if t is not None and module_alias(m, t.name) and o.get("moves"):
-        return "module-alias-moves-module"
+        yield "module-alias-moves-module"
     name = t.name if t is not None else m.name.split(".")[-1]
     mods = an.p.mods
     if any(comp_first_iterable(x.tr.tree, name) for x in mods):
-        return "comprehension-first-iterable"
+        yield "comprehension-first-iterable"
     if any(import_rebound(x.tr.tree, name) for x in mods):
-        return "import-rebound"
+        yield "import-rebound"
     for x in mods:
         # ... or `name` is imported under an alias that is such a name (from m import name as k: the token is
         # evaluated through k)
@@ -385,17 +389,17 @@ def focus_of(an, m, t, o, probs, model=False):
             if isinstance(c, ast.ImportFrom):
                 for a in c.names:
                     if a.name == name and a.asname and import_rebound(x.tr.tree, a.asname):
-                        return "import-rebound"
+                        yield "import-rebound"
     for x in mods:
         # ... or the object of an attribute access .name is such a name
         for c in ast.walk(x.tr.tree):
             if isinstance(c, ast.Attribute) and c.attr == name and isinstance(c.value, ast.Name) \
                     and import_rebound(x.tr.tree, c.value.id):
-                return "import-rebound"
+                yield "import-rebound"
     if same_line_conflation(mods, name):
-        return "same-line-import-conflation"
+        yield "same-line-import-conflation"
     if any(class_body_read_before_bind(x.tr.tree, name) for x in mods):
-        return "class-body-read-before-bind"
+        yield "class-body-read-before-bind"
     for x in mods:
         # ... or `name` is an attribute of a class whose body reads another name before binding it (the value rope
         # infers for the attribute, and through it the objects of `self`, then comes from the wrong callee)
@@ -408,33 +412,118 @@ def focus_of(an, m, t, o, probs, model=False):
                     others = {n.id for st in c.body for n in ast.walk(st) if isinstance(n, ast.Name)} - {name}
                     mini = ast.Module(body=[c], type_ignores=[])
                     if any(class_body_read_before_bind(mini, f) for f in others):
-                        return "class-body-read-before-bind"
+                        yield "class-body-read-before-bind"
     for x in mods:
         # ... or the callee of a keyword argument spelled `name` is such a name
         for c in ast.walk(x.tr.tree):
             if isinstance(c, ast.Call) and isinstance(c.func, ast.Name) and any(k.arg == name for k in c.keywords) \
                     and class_body_read_before_bind(x.tr.tree, c.func.id):
-                return "class-body-read-before-bind"
+                yield "class-body-read-before-bind"
     if any(param_of_rebound_def(x.tr.tree, name) for x in mods):
-        return "param-default-of-rebound-def"
+        yield "param-default-of-rebound-def"
     if any(special_param(x.tr.tree, name) for x in mods):
-        return "keyword-only-parameter"
+        yield "keyword-only-parameter"
     if any(class_body_attribute_lookup(x.tr.tree, name) for x in mods):
-        return "class-body-attribute-lookup"
+        yield "class-body-attribute-lookup"
     if any(nonlocal_decl(x.tr.tree, name) for x in mods):
-        return "nonlocal-declaration"
+        yield "nonlocal-declaration"
     if any(header_expression(x.tr.tree, name) for x in mods):
-        return "header-expression"
+        yield "header-expression"
     if instance_attribute_hides_inherited([x.tr.tree for x in mods], name):
-        return "instance-attribute-hides-inherited"
+        yield "instance-attribute-hides-inherited"
     # defects that were repaired in /repo (their replays live in corpus/C01): checked last, so that a failure
     # with a recorded cause is not attributed to them
     if any(kwarg_in_fstring(x.tr.tree, name) for x in mods):
-        return "keyword-argument-in-fstring"
+        yield "keyword-argument-in-fstring"
     if (model or any(p.startswith(("skeleton:", "parse:")) for p in probs)) and any(name.lower() in string_prefixes(x.src) for x in mods):
-        return "string-prefix-as-occurrence"
+        yield "string-prefix-as-occurrence"
     if any(genexp_first_token(x.tr.tree, x.src, name) for x in mods):
-        return "genexp-first-token"
+        yield "genexp-first-token"
+    return
+
+
+EXPECTED = {
+    # signature -> the kinds of failure the defect produces; a failure of another kind on an input that merely contains
+    # the shape is not attributed to the finding
+    "comprehension-first-iterable": {"alpha", "exec:NameError", "exec:UnboundLocalError", "exec:output"},
+    "import-rebound": {"alpha", "exec:ImportError", "exec:AttributeError", "exec:NameError", "exec:TypeError"},
+    "same-line-import-conflation": {"alpha", "exec:ImportError", "exec:NameError", "exec:AttributeError"},
+    "class-body-read-before-bind": {"alpha", "exec:NameError", "exec:TypeError", "exec:AttributeError", "exec:output"},
+    "param-default-of-rebound-def": {"alpha", "exec:NameError", "exec:TypeError", "exec:UnboundLocalError"},
+    "special-name-renamed": {"alpha", "exec:TypeError", "exec:AttributeError", "exec:output"},
+    "keyword-only-parameter": {"alpha", "exec:NameError", "exec:TypeError", "exec:UnboundLocalError"},
+    "class-body-attribute-lookup": {"alpha", "exec:NameError", "exec:AttributeError", "exec:TypeError", "exec:output"},
+    "nonlocal-declaration": {"parse", "alpha", "exec:SyntaxError", "exec:NameError", "exec:UnboundLocalError", "exec:output"},
+    "instance-attribute-hides-inherited": {"alpha", "exec:AttributeError"},
+    "header-expression": {"alpha", "exec:NameError", "exec:UnboundLocalError", "exec:TypeError", "exec:output"},
+}
+
+
+def failure_kinds(probs):
+    """(kinds of the oracle's verdicts, positions (path, line) of the tokens the alpha verdicts name)"""
+    kinds, pos = set(), set()
+    for p in probs:
+        head = p.split(":", 1)[0]
+        if head == "exec":
+            mm = re.search(r"exit (\S+) -> (\S+) \((\w*)\)", p)
+            if mm and mm.group(1) != mm.group(2) and mm.group(3):
+                kinds.add("exec:" + mm.group(3))
+            else:
+                kinds.add("exec:output")
+        else:
+            kinds.add(head)
+        if head == "alpha":
+            for mm in re.finditer(r"(\S+\.py):(\d+):\d+ '", p):
+                pos.add((mm.group(1), int(mm.group(2))))
+    return kinds, pos
+
+
+def shape_spans(sig, mods, name):
+    """{path: [(first line, last line)]} of the places where the shape of a finding occurs; None = no locality
+    is claimed for this finding"""
+    out = {}
+    for x in mods:
+        spans = []
+        for n in ast.walk(x.tr.tree):
+            if sig == "comprehension-first-iterable" and isinstance(n, (ast.ListComp, ast.SetComp, ast.DictComp, ast.GeneratorExp)):
+                bound = set()
+                for g in n.generators:
+                    bound |= target_ids(g.target)
+                if name in bound and name in target_ids(n.generators[0].iter):
+                    spans.append((n.lineno, n.end_lineno))
+            elif sig == "header-expression" and isinstance(n, (ast.FunctionDef, ast.AsyncFunctionDef, ast.ClassDef)):
+                if header_expression(ast.Module(body=[n], type_ignores=[]), name):
+                    spans.append((n.lineno, n.end_lineno))
+            elif sig == "nonlocal-declaration" and isinstance(n, (ast.FunctionDef, ast.AsyncFunctionDef)):
+                if any(isinstance(c, ast.Nonlocal) and name in c.names for c in ast.walk(n)):
+                    spans.append((n.lineno, n.end_lineno))
+        out[x.path] = spans
+    if sig in ("comprehension-first-iterable", "header-expression", "nonlocal-declaration"):
+        return out
+    return None
+
+
+def confirmed(sig, an, name, probs, model):
+    """the failure is the one the finding predicts: every verdict is of an expected kind and, where the defect is
+    local, an alpha verdict names a token inside the shape"""
+    if model or sig not in EXPECTED:
+        return True
+    kinds, pos = failure_kinds(probs)
+    if not kinds <= EXPECTED[sig]:
+        return False
+    spans = shape_spans(sig, an.p.mods, name)
+    if spans is not None and pos:
+        return any(any(lo <= line <= hi for (lo, hi) in spans.get(path, [])) for (path, line) in pos)
+    return True
+
+
+def focus_of(an, m, t, o, probs, model=False):
+    """the recorded finding that explains a failing rename: the first shape present in the sources whose predicted
+    failure is the observed one; None = unexplained"""
+    name = t.name if t is not None else m.name.split(".")[-1]
+    for sig in candidates_of(an, m, t, o, probs, model):
+        if confirmed(sig, an, name, probs, model):
+            return sig
     return None
 
 
@@ -839,7 +928,7 @@ def replay(ctx, obj):
         if an is None:
             return True
         (bad, _, alpha, _), = coq_results(ctx, [an])
-        return bool(unexplained_mismatches(ctx, an, bad)) or 2 in alpha or 5 in alpha
+        return bool(unexplained_mismatches(ctx, an, bad)) or 2 in alpha or 5 in alpha or 8 in alpha
     if obj.get("kind") != "rename":
         return True
     an = analyse(ctx, obj["files"], obj["entry"], random.Random(0), "replay",
@@ -1007,11 +1096,11 @@ def flush(ctx, batch):
             ctx.count("model:" + CLASS_TEXT.get(cl, str(cl)))
         for (q, a) in zip(qs, alpha):
             ctx.count("theorem:" + ALPHA_TEXT.get(a, str(a)))
-            if a in (2, 5) and not ctx.too_many():
+            if a in (2, 5, 8) and not ctx.too_many():
                 mm = an.p.flat[q[0]]
                 tt = mm.by_id.get(q[1])
                 ctx.violation({"kind": "coq", "files": an.files, "entry": an.entry, "code": 20 + a, "query": list(q[:2]),
-                               "broken": "C01_alpha_partial: %s" % ALPHA_TEXT[a]},
+                               "broken": "C01_alpha_partial / C01_alpha_exact: %s" % ALPHA_TEXT[a]},
                               "alpha theorem on the case: %s at %s token %r" % (ALPHA_TEXT[a], mm.path, tt.name if tt else None),
                               no_input=True)
         for (m, t, nn, kw, o, probs) in an.queries:
